@@ -1,6 +1,8 @@
 package main
 
 import (
+	"bufio"
+	"bytes"
 	"errors"
 	"io"
 	"strconv"
@@ -24,6 +26,50 @@ type chunkReader struct {
 	consumed int
 	reads    int
 	empties  int
+	dress    string    // "" | "B<size>" | "BR" | "BB" | "SR": the concrete reader type the library is handed (see R)
+	dr       io.Reader // the dressed reader, built by R
+	total    int
+}
+
+// R is the reader handed to the library. Without a dress prefix in the chunk spec it is the chunked transport itself;
+// with "<dress>/" the SAME transport stands behind another concrete type, because code that type-switches on its
+// io.Reader (a fast path for *bufio.Reader, *bytes.Reader, *bytes.Buffer ...) must still decide what the property says:
+// B<size> = bufio.NewReaderSize(transport, size); BR = bytes.NewReader, BB = bytes.NewBuffer, SR = strings.NewReader over
+// the whole data (chunking does not apply; tail must be "eof").
+func (r *chunkReader) R() io.Reader {
+	if r.dress == "" {
+		return r
+	}
+	if r.dr == nil {
+		switch {
+		case r.dress == "BR":
+			r.dr = bytes.NewReader(r.data)
+		case r.dress == "BB":
+			r.dr = bytes.NewBuffer(append([]byte(nil), r.data...))
+		case r.dress == "SR":
+			r.dr = strings.NewReader(string(r.data))
+		default:
+			n, _ := strconv.Atoi(r.dress[1:])
+			r.dr = bufio.NewReaderSize(r, n)
+		}
+	}
+	return r.dr
+}
+
+// used is the number of bytes the library has taken from what it was handed: what left the transport minus what the
+// dressing reader still holds
+func (r *chunkReader) used() int {
+	switch d := r.dr.(type) {
+	case *bufio.Reader:
+		return r.consumed - d.Buffered()
+	case *bytes.Reader:
+		return r.total - d.Len()
+	case *bytes.Buffer:
+		return r.total - d.Len()
+	case *strings.Reader:
+		return r.total - d.Len()
+	}
+	return r.consumed
 }
 
 // emptiesOf reports how many (0, nil) reads the transport has answered so far (0 for other readers): a caller
@@ -100,6 +146,10 @@ func (r *chunkReader) Read(p []byte) (int, error) {
 // chunk spec token: "-" whole, "r<k>" repeat k, or "a,b,c".
 func newChunkReader(data []byte, spec string, tail string) *chunkReader {
 	r := &chunkReader{data: append([]byte(nil), data...), fail: tail == "fail" || tail == "faildata", withData: tail == "eofdata" || tail == "faildata"}
+	r.total = len(data)
+	if i := strings.IndexByte(spec, '/'); i >= 0 {
+		r.dress, spec = spec[:i], spec[i+1:]
+	}
 	switch {
 	case spec == "-":
 	case strings.HasPrefix(spec, "r"):
